@@ -88,7 +88,7 @@ def gen(rs, tier, index):
             else:
                 ops.append({'op': 'reparent_rename', 'wire': rng.randrange(64), 'parent': rng.randrange(8), 'name': rng.choice(NAMES)})
         return {'mode': 'ops', 'ops': ops}
-    kinds = [k for k in KINDS.values()]
+    kinds = [k for k in KINDS.values() if 'manual' not in k.tags]
     n = rng.choice([3, 6, 12]) if tier == 'quick' else rng.choice([6, 15, 25])
     d = netlist.gen_design(rng, n, [k for k in kinds if not k.seq], hier_depth=rng.choice([0, 1, 2]),
                            feedback=0.1, seq_kinds=[k for k in kinds if k.seq], seq_frac=0.25)
